@@ -227,6 +227,9 @@ struct Expanded<K, S> {
 pub fn explore<M: Model>(m: &M, caps: &Caps, seed: u64) -> Outcome {
     let t0 = Instant::now();
     let (max_wall_s, by_budget) = budgeted_wall(caps);
+    // resident memory is a property of the process: what earlier explorations left behind (freed, but kept by
+    // the allocator) must not count against this one
+    let rss_base = rss_mb();
     let events = m.events();
     assert!(events.len() < u16::MAX as usize);
     let mut out = Outcome {
@@ -320,9 +323,9 @@ pub fn explore<M: Model>(m: &M, caps: &Caps, seed: u64) -> Outcome {
             break;
         }
         let rss = rss_mb();
-        if rss > caps.max_rss_mb {
+        if rss.saturating_sub(rss_base) > caps.max_rss_mb || rss > caps.max_rss_mb + caps.max_rss_mb / 2 {
             exhaustive = false;
-            out.cap_hit = Some(format!("rss cap {} MB (at {} MB)", caps.max_rss_mb, rss));
+            out.cap_hit = Some(format!("rss cap {} MB (at {} MB, {} MB when this exploration started)", caps.max_rss_mb, rss, rss_base));
             break;
         }
         let seen_ref = &seen;
